@@ -36,7 +36,7 @@ class LoopMixin:
                 states = [s2 for s2, b in self.ev_truth(node.test, probe) if b]
             for r in self.exec_block(body, states):
                 for w in r.writes[n0:]:
-                    if w[0] != "cls":
+                    if w[0] not in ("cls", "list.nodeowned"):
                         comps.add(w[0])
         finally:
             self.obligations = saved_obs
@@ -133,6 +133,18 @@ class LoopMixin:
                 return ("seq", keys, None, lambda s, i: V("tuple", xs=[V("val", keys[i]), V("val", z3.Select(m, keys[i]))]))
             if kind == "map":
                 raise Unsupported(f"{self.where(node)}: iteration over map()")
+        if v.k in ("ref", "val") and v.cls == "iterator":
+            from .state import entails
+            r = self.as_ref(v, st)
+            lst = st.read("iterator.seq", r, Int)
+            pos = st.read("iterator.pos", r, Int)
+            items = st.items(lst)
+            et = v.elem
+            if entails(st.pc, pos == 0):
+                seq = items
+            else:
+                seq = z3.SubSeq(items, pos, z3.Length(items) - pos)
+            return ("seq", seq, et, lambda s, i: self.unbox(seq[i], et, s))
         if v.k in ("ref", "val") and v.cls == "iterable":
             # an iterable of unknown class: a list / tuple object, or a repo Sequence (Stack) iterated through the Sequence mix-in
             r = self.as_ref(v, st)
@@ -261,6 +273,8 @@ class LoopMixin:
             st.yielded = z3.Empty(SeqV)
         for g, text in (spec.get("ghost_init") or {}).items():
             st.env[g] = self.spec_value(text, st, None, old=entry)
+        for lem in (spec.get("lemmas") or []):
+            st.assume(self.spec_eval(lem, st, dict(ghost, _i=vint(0)), old=entry))
         # inv-init
         for j, inv in enumerate(spec.get("invariant", [])):
             self.oblige(st, "inv-init", f"loop{ordn}#{j}", self.spec_eval(inv, st, dict(ghost, _i=vint(0)), old=entry, goal=True), s, meta={"clause": inv})
@@ -278,6 +292,8 @@ class LoopMixin:
         # exit
         ex = st.fork()
         ex.pc.append(i == n)
+        for lem in (spec.get("lemmas") or []):
+            ex.assume(self.spec_eval(lem, ex, gi, old=entry))
         if feasible(ex.pc):
             ex.env.update({k: v for k, v in gi.items() if k in ("_seq",)} if False else {})
             out += self.exec_block(s.orelse, [ex]) if s.orelse else [ex]
@@ -285,6 +301,9 @@ class LoopMixin:
         b = st
         b.pc.append(i < n)
         if feasible(b.pc):
+            for lem in (spec.get("lemmas") or []):
+                # ground instances of definitional unfoldings / proved rules for this iteration (assumed)
+                b.assume(self.spec_eval(lem, b, gi, old=entry))
             for b2 in self.assign(s.target, mk(b, i), b):
                 for r in self.exec_block(s.body, [b2]):
                     if r.status in ("run", "cont"):
@@ -368,6 +387,12 @@ class LoopMixin:
     def havoc_target(self, text, st, env=None):
         """modifies clause: 'x.f' (field), 'x[]' (contents of list/dict/set x), '@comp' (whole heap component), 'global m.n'"""
         text = text.strip()
+        if text.startswith("@") and ":" in text:
+            comp, _, flag = text[1:].partition(":")
+            own = st.comp("list.nodeowned")
+            # havoc the component except at objects that no AST node refers to (flags as of now)
+            st.havoc_comp_except(comp, lambda r, own=own: z3.Not(z3.Select(own, r)), self.component_sort(comp))
+            return
         if text.startswith("@"):
             st.havoc_comp(text[1:], self.component_sort(text[1:]))
             return
